@@ -517,6 +517,10 @@ func (i *Interpreter) ProcessLogStatement(stmt *ast.LogStatement) error {
 }
 
 func (i *Interpreter) ProcessSyntheticStatement(stmt *ast.SyntheticStatement) error {
+	// Also reached from functional subroutines, which have their own statement dispatch
+	if !i.ctx.Scope.Is(context.ErrorScope) || i.ctx.Object == nil {
+		return exception.Runtime(&stmt.Token, "synthetic statement is only available in ERROR scope")
+	}
 	val, err := i.ProcessExpression(stmt.Value)
 	if err != nil {
 		return errors.WithStack(err)
@@ -531,6 +535,9 @@ func (i *Interpreter) ProcessSyntheticStatement(stmt *ast.SyntheticStatement) er
 }
 
 func (i *Interpreter) ProcessSyntheticBase64Statement(stmt *ast.SyntheticBase64Statement) error {
+	if !i.ctx.Scope.Is(context.ErrorScope) || i.ctx.Object == nil {
+		return exception.Runtime(&stmt.Token, "synthetic.base64 statement is only available in ERROR scope")
+	}
 	val, err := i.ProcessExpression(stmt.Value)
 	if err != nil {
 		return errors.WithStack(err)
